@@ -188,8 +188,10 @@ static int hvisit_nc(void *e, void *p) { return hvisit(e, p); }
 static size_t hdirty(const struct cstl_hash *h) { size_t b, d = 0; if (h->bucket.rh.hash == NULL) return 0; for (b = 0; b < h->bucket.count; b++) d += h->bucket.at[b].cst != h->bucket.cst; return d; }
 #define H_PENDING(h, ops, old) ((h).bucket.rh.hash != NULL)
 #define H_COUNT_IS(h, n) ((h).bucket.count == (n))
+#define H_COUNT_MSG(h) ((h).bucket.count)
 #else
 #define H_COUNT_IS(h, n) 1
+#define H_COUNT_MSG(h) ((size_t)0)
 #define H_PENDING(h, ops, old) ((ops) < (old))      /* without looking inside: as many keyed operations as there were buckets (C19 says the rehash is over by then) */
 #endif
 static void hash_case(unsigned n, size_t c0, size_t c1, size_t c2)
@@ -229,7 +231,7 @@ static void hash_case(unsigned n, size_t c0, size_t c1, size_t c2)
                 if ((ops & 127) == 5 && is("C04")) { hcount = 0; cstl_hash_foreach_const(&h, hvisit, NULL); CHECK(hcount == (int)held, "foreach_const mid-rehash visited %d of %u elements", hcount, held); }
                 if ((ops % 3) == 1 && HE[k].in) { cstl_hash_erase(&h, &HE[k]); HE[k].in = 0; held--; }
             }
-            if (is("C19")) { unsigned long c = hcalls; (void)cstl_hash_find(&h, 13, NULL, NULL); CHECK(hcalls - c == 1 && H_COUNT_IS(h, steps[s]), "after the rehash a lookup consulted the hash %lu times with %zu buckets (requested %zu)", hcalls - c, h.bucket.count, steps[s]); }
+            if (is("C19")) { unsigned long c = hcalls; (void)cstl_hash_find(&h, 13, NULL, NULL); CHECK(hcalls - c == 1 && H_COUNT_IS(h, steps[s]), "after the rehash a lookup consulted the hash %lu times with %zu buckets (requested %zu)", hcalls - c, H_COUNT_MSG(h), steps[s]); }
             if (is("C03")) for (i = 0; i < n && !nviol; i++) { void *f = cstl_hash_find(&h, (size_t)i * 13, NULL, NULL); CHECK(f == (HE[i].in ? (void *)&HE[i] : NULL), "after the rehash to %zu buckets find(%u) is wrong", steps[s], i); }
             CHECK(cstl_hash_size(&h) == held || !is("C03"), "size %zu, %u elements held", cstl_hash_size(&h), held);
             cur_n = steps[s];
